@@ -5,7 +5,7 @@ CLAIMED = True
 LEVEL = 'proof'
 LEVEL_TEXT = ('Proof, assembled from parts (coq/Properties/C01_*.v). (a) draw_iter-only vs native target: C01_targets_* prove that painting ANY list of fill_contiguous / fill_solid / clear / draw_iter calls through the trait defaults of core/src/draw_target/mod.rs gives, at every point, the pixel map of a target implementing them natively with their documented meaning, for any target box (non-origin, empty) and through adapter stacks of any depth; every built-in drawable reaches a target only through these four methods, so this half covers all drawables at once. (b) pixels() vs draw(): full theorems for styled Rectangle, Circle, Ellipse (C01_circle_*), RoundedRectangle (C01_rrect_*, outside the recorded class K06/K01_rrect_fill_outside_stroke), images (C01_image_*: one fill_contiguous with exactly w*h colours), fill-only triangles; for Line, Arc, Sector draw() IS draw_iter(pixels()) - the shape of both function bodies is regenerated from the source on every run and checked by reflection (C01_direct_*); for thick polylines and stroked/filled triangles pixels() is proved equal to the fill_solid writes of draw() for the concrete generator of the thick-stroke model (C01_join_*; polylines within the stated range, triangles under the computable condition jt_fused - the un-fused scanline iterator never skips a leading empty row - PROVED for fill-only and collapsed strokes, evaluated by the model oracle on every generated case otherwise); the consumer glue holds for any generator output (C01_tri_*_glue_*), and the private fill_solid semantics of each family semantics is proved equal to Model/Target.v (C01_bridge_*).')
 LEVEL_NOTE = ('Partial where listed: non-collapsed stroked triangles carry the computable hypothesis jt_fused; text: C01_text_* prove that every call MonoFontDrawTarget forwards fits and renders alike on both target kinds (half (a)), pixels() does not exist for text. The models are tied to the code by differential testing of the extracted models against the real library (two recording targets, one draw_iter-only) and by the direct search p_paths / p_c01_zoo over every drawable family; known finding K01_rrect_fill_outside_stroke is excluded by a machine-checked class predicate.')
-PARTIAL = ['stroked triangles of width >= 1 that are not collapsed: pixels() = draw() under the computable hypothesis jt_fused (never false on an exhaustive 6x6 grid x widths 1..3 x alignments, nor on 120k random triangles); proved unconditionally for polylines, fill-only and collapsed triangles', 'text: half (a) only (C01_text_*: every forwarded call fits and renders alike on both target kinds); pixels() does not exist for text']
+PARTIAL = ['stroked triangles of width >= 2 that are not collapsed: pixels() = draw() under the computable hypothesis jt_fused (width 1: proved without it for EVERY triangle, alignment and fill, C01_join_triangle_pixels_draw_w1_all) (never false on an exhaustive 6x6 grid x widths 1..3 x alignments, nor on 120k random triangles); proved unconditionally for polylines, fill-only and collapsed triangles', 'text: half (a) only (C01_text_*: every forwarded call fits and renders alike on both target kinds); pixels() does not exist for text']
 RULE = ('search p_paths: every drawable family of the zoo (styled rectangle/circle/ellipse/rounded rectangle/triangle/line/polyline/arc/sector, '
         'images, sub-images, text with 8 fonts) x random styles (fill/stroke present/absent, widths 0..12, 3 alignments) x positions x target boxes '
         '(non-origin, cutting the object, missing it, empty): pixel maps of draw() on a draw_iter-only target, draw() on a native fill target, '
